@@ -29,15 +29,18 @@ CENTER_FREQS = [(400.0, "MHz"), (1.4, "GHz"), (800.0, "MHz"), (327.5, "MHz"), (0
 LAYOUTS = ["C", "F", "strided", "reversed", "chanstrided"]
 
 
-def gen_signal_spec(tape, classes=None, maxlen=64, layouts=True, label="sig"):
+def gen_signal_spec(tape, classes=None, maxlen=64, layouts=True, label="sig", big=False):
     classes = classes or CLASSES
     cls = tape.choice(classes, f"{label}.cls")
-    n = [16, 8, 12, 24, 32, 5, 7, 48, 64, 96, 1, 2, 3][
-        tape.draw(13, f"{label}.n")]
+    sizes = [16, 8, 12, 24, 32, 5, 7, 48, 64, 96, 1, 2, 3]
+    if big:
+        sizes = sizes + [128, 100, 192, 144, 101]
+    n = sizes[tape.draw(len(sizes), f"{label}.n")]
     n = min(n, maxlen)
     shape = [n]
     if cls != "Signal":
-        shape.append([4, 1, 2, 3, 8, 6][tape.draw(6, f"{label}.nchan")])
+        chans = [4, 1, 2, 3, 8, 6] + ([16, 12, 9] if big else [])
+        shape.append(chans[tape.draw(len(chans), f"{label}.nchan")])
     elif tape.chance(1, 2, f"{label}.sig2d"):
         shape.append(tape.rint(1, 3, f"{label}.d1"))
     if cls == "FullStokesSignal":
